@@ -4,6 +4,7 @@ import (
 	"bytes"
 	"fmt"
 	"go/ast"
+	"go/constant"
 	"go/token"
 	"go/types"
 	"sort"
@@ -1395,4 +1396,191 @@ func onlyCalled(p *packages.Package, body *ast.BlockStmt, obj types.Object) bool
 		return true
 	})
 	return !bad
+}
+
+// UnrollConstRanges rewrites `for _, v := range <array/slice literal of ≤ 4 constant elements>
+// { body }` into one copy of the body per element, with `v` (or `v[k]` for a nested literal)
+// replaced by the element's text. A table-driven loop hides a fixed sequence of steps (the
+// compare-exchange network of the median, a list of fields to write) behind an index; the unrolled
+// form is the sequence itself. Loops whose body breaks, continues, uses labels, defers, assigns the
+// loop variable or uses it other than by value are left alone. A `//line` directive after the
+// unrolled statement keeps the line numbers of the rest of the file.
+func UnrollConstRanges(pkgs []*packages.Package, read func(string) ([]byte, error)) (map[string][]byte, []string) {
+	overlay := map[string][]byte{}
+	var notes []string
+	for _, p := range pkgs {
+		for _, f := range p.Syntax {
+			fname := p.Fset.Position(f.Pos()).Filename
+			if strings.HasSuffix(fname, "_test.go") {
+				continue
+			}
+			var src []byte
+			var edits []edit
+			off := func(pos token.Pos) int { return p.Fset.Position(pos).Offset }
+			ast.Inspect(f, func(n ast.Node) bool {
+				rs, ok := n.(*ast.RangeStmt)
+				if !ok || rs.Tok != token.DEFINE || rs.Value == nil {
+					return true
+				}
+				if k, isID := rs.Key.(*ast.Ident); rs.Key != nil && (!isID || k.Name != "_") {
+					return true
+				}
+				vid, ok := rs.Value.(*ast.Ident)
+				if !ok || vid.Name == "_" {
+					return true
+				}
+				lit, ok := rs.X.(*ast.CompositeLit)
+				if !ok || len(lit.Elts) == 0 || len(lit.Elts) > 4 {
+					return true
+				}
+				isConst := func(e ast.Expr) bool {
+					tv, ok := p.TypesInfo.Types[e]
+					return ok && tv.Value != nil
+				}
+				nested := false
+				for _, e := range lit.Elts {
+					switch x := e.(type) {
+					case *ast.CompositeLit:
+						nested = true
+						for _, ie := range x.Elts {
+							if !isConst(ie) {
+								return true
+							}
+						}
+					case *ast.KeyValueExpr:
+						return true
+					default:
+						if !isConst(e) {
+							return true
+						}
+					}
+				}
+				obj := p.TypesInfo.Defs[vid]
+				if obj == nil || assignsTo(p, rs.Body, obj) {
+					return true
+				}
+				// body restrictions
+				okBody := true
+				ast.Inspect(rs.Body, func(x ast.Node) bool {
+					switch y := x.(type) {
+					case *ast.BranchStmt:
+						if y.Tok == token.CONTINUE || y.Tok == token.GOTO || y.Label != nil {
+							okBody = false
+						}
+					case *ast.LabeledStmt, *ast.DeferStmt, *ast.FuncLit, *ast.GoStmt:
+						okBody = false
+					}
+					return okBody
+				})
+				for _, st := range rs.Body.List {
+					if breaksOut(st) {
+						okBody = false
+					}
+				}
+				// declarations in the body would collide between copies only if the copies shared a
+				// scope; each copy gets its own block
+				if !okBody {
+					return true
+				}
+				// uses of v: `v` for scalar elements, `v[const]` for nested ones
+				type use struct {
+					start, end int
+					idx        int // -1: whole value
+				}
+				var uses []use
+				bad := false
+				var walk func(x ast.Node) bool
+				walk = func(x ast.Node) bool {
+					if bad {
+						return false
+					}
+					switch y := x.(type) {
+					case *ast.IndexExpr:
+						if id, ok := y.X.(*ast.Ident); ok && p.TypesInfo.Uses[id] == obj {
+							tv, ok := p.TypesInfo.Types[y.Index]
+							if !ok || tv.Value == nil || !nested {
+								bad = true
+								return false
+							}
+							k, exact := constantInt(tv)
+							if !exact {
+								bad = true
+								return false
+							}
+							uses = append(uses, use{off(y.Pos()), off(y.End()), k})
+							return false
+						}
+					case *ast.Ident:
+						if p.TypesInfo.Uses[y] == obj {
+							if nested {
+								bad = true
+								return false
+							}
+							uses = append(uses, use{off(y.Pos()), off(y.End()), -1})
+						}
+					}
+					return true
+				}
+				ast.Inspect(rs.Body, walk)
+				if bad {
+					return true
+				}
+				if src == nil {
+					b, err := read(fname)
+					if err != nil {
+						return false
+					}
+					src = b
+				}
+				bodyStart, bodyEnd := off(rs.Body.Lbrace), off(rs.Body.Rbrace)+1
+				sort.Slice(uses, func(i, j int) bool { return uses[i].start < uses[j].start })
+				var sb strings.Builder
+				sb.WriteString("{\n")
+				for _, e := range lit.Elts {
+					pos := bodyStart
+					for _, u := range uses {
+						sb.Write(src[pos:u.start])
+						var repl string
+						if u.idx < 0 {
+							repl = "(" + string(src[off(e.Pos()):off(e.End())]) + ")"
+						} else {
+							in := e.(*ast.CompositeLit)
+							if u.idx >= len(in.Elts) {
+								return true
+							}
+							ie := in.Elts[u.idx]
+							repl = "(" + string(src[off(ie.Pos()):off(ie.End())]) + ")"
+						}
+						sb.WriteString(repl)
+						pos = u.end
+					}
+					sb.Write(src[pos:bodyEnd])
+					sb.WriteString("\n")
+				}
+				endLine := p.Fset.Position(rs.End()).Line
+				sb.WriteString(fmt.Sprintf("}\n//line %s:%d\n", fname, endLine))
+				edits = append(edits, edit{off(rs.Pos()), off(rs.End()), sb.String()})
+				notes = append(notes, fmt.Sprintf("loop over a constant table of %d entries at %s analysed unrolled", len(lit.Elts), shortPos(p.Fset.Position(rs.Pos()))))
+				return false
+			})
+			if len(edits) == 0 {
+				continue
+			}
+			sort.Slice(edits, func(i, j int) bool { return edits[i].start > edits[j].start })
+			out := append([]byte{}, src...)
+			for _, e := range edits {
+				out = append(out[:e.start], append([]byte(e.text), out[e.end:]...)...)
+			}
+			overlay[fname] = out
+		}
+	}
+	return overlay, notes
+}
+
+func constantInt(tv types.TypeAndValue) (int, bool) {
+	if tv.Value == nil {
+		return 0, false
+	}
+	v, ok := constant.Int64Val(constant.ToInt(tv.Value))
+	return int(v), ok
 }
